@@ -52,6 +52,11 @@ CLAIMED = {
             "Trusted: the decorator's depth bookkeeping (depth 0 = runner's own instruction, handler invocation classified by following an Error end), shuttle's serialisation of the two threads, handle names normalised by order of first appearance when executions are compared. Stubbed: harness commands, OS scheduler (mode B).",
             "deterministic simulation: fault enumeration of the halt instant over all instruction boundaries + seeded thread schedules (shuttle), prefix-refinement oracle against the unhalted run",
             "DESIGN.md section 3 C13"),
+    "C14": ("exploration",
+            "Seeded include trees written to a jailed real file system and parsed/run by the real parser, pre-processor and runner: a textual inliner is the reference for the (file, line) tag of every instruction, the tree is run differentially against the pasted text (same instruction indexes), planted failing commands must report their own file and line through the last-error queries, and file-level faults (an included file missing, a directory, not UTF-8, or holding a malformed line) must fail the whole parse naming that file or line.",
+            "Trusted: the inliner, canonicalisation for comparing file identities, the pasted-text run as the behavioural reference (it exercises the same runner). Include cycles are out of scope here.",
+            "deterministic simulation: seeded include trees on a jailed real file system with missing/odd/malformed included files vs textual-inliner model and differential run of the pasted text",
+            "DESIGN.md section 3 C14"),
     "C18": ("exploration",
             "Seeded operation histories against the real kernel file system on a private tree inside a chroot jail: every operation is a real syscall sequence whose outcome depends on what earlier operations left behind (a path that was a file is now a directory, parents missing, invalid UTF-8 content), plus a genuine torn write produced by RLIMIT_FSIZE; after every step the whole tree (names, kinds, contents) is walked and compared with a file-tree model, which decides 'read what was written', 'mv = cp + rm' and 'a failing operation leaves the tree unchanged'.",
             "Trusted: the model table of Appendix D.6 including its explicitly unconstrained corners (model adopts the disk state there); tmpfs as the file system; EIO-class faults are not injected (no seam without changing /repo).",
